@@ -675,6 +675,9 @@ func fuzzSeeds() [][]byte {
 		seeds = append(seeds, append(append([]byte{0x00}, c...), 0x00))             // txout: amount, oversized script size
 	}
 	seeds = append(seeds, nil, []byte{0x00}, []byte{0x80}, []byte{0x01, 0x00, 0x85}, []byte{0x01, 0x00, 0x04}, []byte{0x01, 0x00, 0x05, 0x00})
+	// kilobytes of continuation bytes (found by the fuzzer: the model reader must stay linear)
+	seeds = append(seeds, append([]byte{0x71}, bytes.Repeat([]byte{0xe6}, 3000)...))
+	seeds = append(seeds, append(append([]byte{0x02, 0x00, 0x00}, bytes.Repeat([]byte{0xff}, 1200)...), 0x7f, 0x00))
 	return seeds
 }
 
